@@ -227,7 +227,7 @@ class Tracer(SymEval):
         base, enum = desc, False
         if base[0] == "enumerate":
             base, enum = base[1], True
-        if getattr(self, "unroll_literals", False) and base[0] == "elems" and isinstance(base[1], tuple) and base[1] and base[1][0] == "array" and len(base[1][1]) <= 16 \
+        if getattr(self, "unroll_literals", False) and base[0] == "elems" and isinstance(base[1], tuple) and base[1] and base[1][0] == "array" and len(base[1][1]) <= 64 \
                 and not any(x.get("k") in ("break", "continue") for x in walk(n["body"])):
             for i, el in enumerate(base[1][1]):
                 e2 = dict(env)
@@ -238,6 +238,16 @@ class Tracer(SymEval):
                         nm = plain_local(a["l"])
                         if nm is not None and nm in e2 and nm in env:
                             env[nm] = e2[nm]
+            return ("tuple", [])
+        if getattr(self, "unroll_literals", False) and desc[0] == "range" and isinstance(desc[1], Poly) and isinstance(desc[2], Poly) and \
+                desc[1].const_value() is not None and desc[2].const_value() is not None and \
+                0 <= desc[2].const_value() - desc[1].const_value() <= 8 and not any(x.get("k") in ("break", "continue") for x in walk(n["body"])):
+            # a loop over a small constant range (e.g. the permutations k1+1..=k2 of one protograph block): unrolled as well
+            lo_, hi_ = int(desc[1].const_value()), int(desc[2].const_value()) + (1 if desc[3] else 0)
+            for i in range(lo_, hi_):
+                e2 = dict(env)
+                self.bind(n["pat"], num(i), e2)
+                self.eval(n["body"], e2)
             return ("tuple", [])
         names = [x["name"].split("#")[0] for x in walk(n["pat"]) if x.get("k") == "bind"]
         hint = names[0] if names else "it"
@@ -320,6 +330,8 @@ class Tracer(SymEval):
 
     def e_if(self, n, env):
         cn = strip(n["c"])
+        if cn.get("k") == "letx" and "e" not in n:
+            n = dict(n, e={"k": "block", "stmts": [], "ty": "()"})
         if cn.get("k") == "letx" and "e" in n:
             # `if let Some(p) = o { A } else { B }` is `match o { Some(p) => A, None => B }`: one normal form for both spellings
             from .tables import pat_key
